@@ -17,7 +17,19 @@ const HELPERS: [&[&str]; 6] = [
     &["#[typeshare(skip)]", "#[typeshare(serialized_as = \"u32\")]"],
 ];
 /// neighbouring non-typeshare attributes (must survive untouched); `{R}` is a per-member unique rename
-const NEIGHBOURS: [&str; 7] = ["", "#[serde(rename = \"{R}\")]", "#[serde(skip)]", "#[doc = \" documented member\"]", "#[cfg(all())]", "#[cfg(any())]", "#[allow(dead_code)]"];
+const NEIGHBOURS: [&str; 10] = [
+    "",
+    "#[serde(rename = \"{R}\")]",
+    "#[serde(skip)]",
+    "#[doc = \" documented member\"]",
+    "#[cfg(all())]",
+    "#[cfg(any())]",
+    "#[allow(dead_code)]",
+    // attributes that are not typeshare's but mention the word
+    "#[serde(rename = \"typeshare_{R}\")]",
+    "#[doc = \" see the typeshare docs\"]",
+    "#[cfg(not(feature = \"typeshare\"))]",
+];
 
 #[derive(Clone, Debug, Default)]
 struct Deco {
@@ -157,7 +169,8 @@ fn enumerate(thorough: bool) -> Vec<Case> {
                             continue;
                         }
                         // the same attribute twice on one member is not a meaningful program
-                        if before == after && before != 0 && matches!(before, 1 | 2) {
+                        // (two renames on one member likewise)
+                        if (before == after && before != 0 && matches!(before, 1 | 2 | 7)) || (matches!(before, 1 | 7) && matches!(after, 1 | 7)) {
                             continue;
                         }
                         let mut decos = vec![Deco::default(); n];
